@@ -168,7 +168,8 @@ if __name__ == '__main__':
         sys.exit(0)
     if cmd == 'runall':
         # refresh result.json of every committed seeded change: its own property's check plus the related checks listed here
-        ALSO = {'C07/1': ['C05'], 'C13/3': ['C12'], 'C13/2': ['C12']}
+        ALSO = {'C07/1': ['C05'], 'C13/3': ['C12'], 'C13/2': ['C12'], 'C02/r2-1': ['C01'], 'C02/r2-2': ['C01', 'C11'], 'C05/r2-3': ['C06'],
+                'C06/r2-3': ['C07']}
         root = os.path.join(VERIF, 'seeded')
         for pid in sorted(os.listdir(root)):
             for k in sorted(os.listdir(os.path.join(root, pid))):
